@@ -307,6 +307,32 @@ def r3(ctx):
                 hc = l_ if U(r_) == sid else (r_ if U(l_) == sid else None)
                 if isinstance(hc, ast.Call) and hc in hs_f and [U(a) for a in hc.args] == [U(gen.target)]:
                     good_lists[U(n.targets[0])] = n
+        # the same list built by a loop, with the plate -> sample mapping either called or spelled out next to its refusal
+        from engine import builders as B
+        helper_names = {U(c.func) for c in hs_f}
+        Nb = Norm(strict=False)
+        for lp in [n for n in walk_own(loop) if isinstance(n, ast.For) and U(n.iter).endswith(".plates") and isinstance(n.target, ast.Name)]:
+            refs = []
+            ms = B._loop_mutations(lp, refs)
+            pv = lp.target.id
+            for kind, nm, payload, conds in ms or []:
+                if kind != "list" or U(payload) != pv or len(conds) != 1 or not conds[0][1]:
+                    continue
+                t = conds[0][0]
+                if not (isinstance(t, ast.Compare) and len(t.ops) == 1 and isinstance(t.ops[0], ast.Eq)):
+                    continue
+                l_, r_ = t.left, t.comparators[0]
+                hc = l_ if U(r_) == sid else (r_ if U(l_) == sid else None)
+                if hc is None:
+                    continue
+                if isinstance(hc, ast.Call) and U(hc.func) in helper_names and [U(a) for a in hc.args] == [pv]:
+                    good_lists[nm] = lp
+                elif U(hc).replace(" ", "") in (f"{pv}.unique_sample_ids[0]", f"{pv}.sample_ids[0]"):
+                    want = [Nb.b(parse_expr(f"len({pv}.unique_sample_ids) > 1"), integer=True), Nb.b(parse_expr(f"{pv}.n_unique_samples != 1")),
+                            Nb.b(parse_expr(f"len({pv}.unique_sample_ids) != 1")), Nb.b(parse_expr(f"{pv}.n_unique_samples > 1"), integer=True)]
+                    if any(not cs and Nb.b(rt, integer=True) in want for rt, cs in refs):
+                        good_lists[nm] = lp
+                        ctx.ok("R3", f"{f.site()}::refuses-multi-sample", f"the plate -> sample reading inside the loop over plates is preceded by the refusal of multi-sample plates")
         ctx.check("R3", f"{f.site()}::per-sample-list", bool(good_lists), f"plates of one sample: [p for p in screen.plates if <sample of p> == {sid}]",
                   "the list of merge candidates is not filtered to the current sample through the refusing plate -> sample mapping")
         if not good_lists:
@@ -595,6 +621,37 @@ def r5(ctx):
     ctx.ok("R5", "id-scope::preparation-modules", f"{n} comparison sites with id provenance examined in the preparation modules")
 
 
+def _drawn_among_sample_rows(v, S, sid):
+    """v = rng.choice(POP, ..): True if POP is rows[mask] / flatnonzero(mask) with a mask that implies sample_ids == sid on every
+    branch; False if the mask is recognised and does not; None if POP has another shape"""
+    if not (isinstance(v, ast.Call) and attr_tail(v) == "choice" and (v.args or kwargs(v).get("a") is not None)):
+        return None
+    pop = v.args[0] if v.args else kwargs(v)["a"]
+    mask = None
+    if isinstance(pop, ast.Subscript) and isinstance(pop.value, ast.Call) and call_name(pop.value) == "np.arange":
+        mask = pop.slice
+    elif isinstance(pop, ast.Call) and call_name(pop) == "np.flatnonzero" and len(pop.args) == 1:
+        mask = pop.args[0]
+    elif isinstance(pop, ast.Subscript) and isinstance(pop.value, ast.Call) and call_name(pop.value) in ("np.where", "np.nonzero") and len(pop.value.args) == 1 \
+            and isinstance(pop.slice, ast.Constant) and pop.slice.value == 0:
+        mask = pop.value.args[0]
+    if mask is None:
+        return None
+    eq = {f"{S}.sample_ids=={sid}", f"{sid}=={S}.sample_ids"}
+
+    def implies(m):
+        if U(m).replace(" ", "") in eq:
+            return True
+        if isinstance(m, ast.BinOp) and isinstance(m.op, ast.BitAnd):
+            return implies(m.left) or implies(m.right)
+        if isinstance(m, ast.IfExp):
+            return implies(m.body) and implies(m.orelse)
+        if isinstance(m, ast.Call) and call_name(m) in ("np.logical_and",) and len(m.args) == 2:
+            return implies(m.args[0]) or implies(m.args[1])
+        return False
+    return implies(mask)
+
+
 def r6(ctx):
     f = ctx.fn(f"{RETRO}.SparseCoverPlateGenerator._generate_and_unmask_initial_plate")
     S = f.params[1]
@@ -628,9 +685,13 @@ def r6(ctx):
         for st in loop.body:
             if isinstance(st, ast.Assign) and isinstance(st.targets[0], ast.Name):
                 outer[st.targets[0].id] = st.value
-        v = inline(c.args[0], {**outer, **benv})
-        t = U(v).replace(" ", "")
-        if not (t.startswith("rng.choice(np.arange(") and f"{S}.sample_ids=={sid}" in t):
+        fenv = {k: v for k, v in single_defs(f.node).items() if k not in outer and k not in benv}
+        env_all = {**fenv, **outer, **benv}
+        v = inline(c.args[0], {k: x for k, x in env_all.items()})
+        verdict = _drawn_among_sample_rows(v, S, sid)
+        if verdict is None:
+            raise AnalysisError(f"{f.site()}: the population `{U(c.args[0])}` of a chosen index is not of the form rows[mask] / flatnonzero(mask)")
+        if not verdict:
             good = False
             detail.append(U(c.args[0]))
     ctx.check("R6", f"{f.site()}::row-of-that-sample", good, f"each chosen index is drawn among rows with sample_ids == {sid}",
@@ -640,13 +701,29 @@ def r6(ctx):
     w = wl[0]
     rem = None
     t = w.test
-    if isinstance(t, ast.Compare) and isinstance(t.left, ast.Call) and call_name(t.left) == "len" and isinstance(t.ops[0], ast.Gt) and U(t.comparators[0]) == "0":
-        rem = U(t.left.args[0])
-    defs = [U(n.value).replace(" ", "") for n in walk_own(f.node) if isinstance(n, ast.Assign) and rem and U(n.targets[0]) == rem]
+    N = Norm(strict=False)
     cov = [k for k in [U(c.func.value) for c in calls(f.node, tail="update")]]
-    ok = rem is not None and len(defs) == 2 and len(set(defs)) == 1 and bool(cov) and defs[0] == f"np.setdiff1d({S}.treatment_ids,list({cov[0]}))" \
-        and not any(isinstance(x, ast.Break) for x in ast.walk(w)) and any(isinstance(n, ast.Assign) and U(n.targets[0]) == rem for n in w.body)
-    ctx.check("R6", f"{f.site()}::cover-until-none-left", ok, "loops while setdiff(all treatment ids, covered) is non-empty, recomputed each round, no break",
+    breaks = [x for x in ast.walk(w) if isinstance(x, ast.Break)]
+    ok = False
+    if isinstance(t, ast.Constant) and t.value is True:
+        # while True: rem = D; if len(rem) == 0: break; BODY
+        first = w.body[0] if w.body else None
+        second = w.body[1] if len(w.body) > 1 else None
+        if isinstance(first, ast.Assign) and isinstance(first.targets[0], ast.Name) and isinstance(second, ast.If) and not second.orelse \
+                and len(second.body) == 1 and isinstance(second.body[0], ast.Break):
+            rem = first.targets[0].id
+            exit_ok = N.b(second.test, integer=True) == N.b(parse_expr(f"len({rem}) == 0"), integer=True)
+            ok = exit_ok and bool(cov) and U(first.value).replace(" ", "") == f"np.setdiff1d({S}.treatment_ids,list({cov[0]}))" and len(breaks) == 1 \
+                and not any(isinstance(n, ast.Assign) and U(n.targets[0]) == rem for n in walk_own(w) if n is not first)
+    else:
+        if isinstance(t, ast.Compare) and isinstance(t.left, ast.Call) and call_name(t.left) == "len" and isinstance(t.ops[0], ast.Gt) and U(t.comparators[0]) == "0":
+            rem = U(t.left.args[0])
+        elif isinstance(t, ast.Call) and call_name(t) == "len" and t.args:
+            rem = U(t.args[0])
+        defs = [U(n.value).replace(" ", "") for n in walk_own(f.node) if isinstance(n, ast.Assign) and rem and U(n.targets[0]) == rem]
+        ok = rem is not None and len(defs) == 2 and len(set(defs)) == 1 and bool(cov) and defs[0] == f"np.setdiff1d({S}.treatment_ids,list({cov[0]}))" \
+            and not breaks and any(isinstance(n, ast.Assign) and U(n.targets[0]) == rem for n in w.body)
+    ctx.check("R6", f"{f.site()}::cover-until-none-left", ok, "loops while setdiff(all treatment ids, covered) is non-empty, recomputed each round, no other exit",
               "the cover loop can exit while some treatment is still uncovered (remaining set not recomputed as setdiff1d(treatment_ids, covered), or a break)")
     sites = [s for s in common.screen_sites(ctx) if s.f.qname == f.qname]
     ctx.need(len(sites) == 1, f"{f.site()}: Screen(...) construction not found")
